@@ -14,7 +14,7 @@ CHECKS = {
     ),
     "C02": (
         "exhaustive enumeration of the operator x operand-type matrix over boundary values, of all operator pairs/triples in all tree shapes and parenthesisations, and of all short literal spellings, executed on the real Operation/Function entry points, parser and interpreter against a reference evaluator",
-        "Every binary/unary operator is applied to every ordered pair of 48 boundary values of the four types (result type = returned variant, compared exactly; through PRINT with two type probes); every ordered pair (and triple) of operators is evaluated in every tree shape with minimal and full parentheses; every literal spelling up to 6/7 characters that the manual classifies, and structured long spellings (1-9 mantissa digits x point position x 14 exponent spellings x suffix), are checked in the parsed statement; 14 numeric functions and assignment to each variable type. Exhaustive within these bounds.",
+        "Every binary/unary operator is applied to every ordered pair of 51 boundary values of the four types (incl. infinities and Doubles within Single resolution of a whole number) (result type = returned variant, compared exactly; through PRINT with two type probes); every ordered pair (and triple) of operators is evaluated in every tree shape with minimal and full parentheses; every literal spelling up to 6/7 characters that the manual classifies, and structured long spellings (1-9 mantissa digits x point position x 14 exponent spellings x suffix), are checked in the parsed statement; 14 numeric functions and assignment to each variable type. Exhaustive within these bounds.",
         "Reference evaluator refmodel/value.rs (manual chapter 1). Exactly rounded operations are compared bit for bit, ^ and transcendental functions within 600 ulp / underflow to zero accepted; = and <> of floats nearer than 4 epsilon are skipped (tolerant equality is the implementation's design); the ordering operators are judged exactly.",
         "DESIGN.md §3 C02",
     ),
